@@ -505,7 +505,7 @@ fn reference(scenario: &str) -> Result<Vec<vtrace::Step>, String> {
 }
 
 fn exec(ctx: &mut Ctx, part: &str, c: &Case, guard_steps: &[vtrace::Step]) {
-    let (obs, r) = Ctx::forked(std::time::Duration::from_secs(120), "observer.hang", |obs| match part {
+    let run = |limit: u64| Ctx::forked(std::time::Duration::from_secs(limit), "observer.hang", |obs| match part {
         "guard.step" => guard_step(c, obs, guard_steps),
         "guard.crash" => guard_crash(c, obs, guard_steps),
         "node.step" => node_step(c, obs),
@@ -513,6 +513,16 @@ fn exec(ctx: &mut Ctx, part: &str, c: &Case, guard_steps: &[vtrace::Step]) {
         "node.interleave" => node_interleave(c, obs),
         _ => cleaners_race(c, obs),
     });
+    let (mut obs, mut r) = run(120);
+    if matches!(&r, Err(f) if f.signature.starts_with("observer.hang")) {
+        // a genuine hang is deterministic: it must show again, otherwise it was the machine
+        let (obs2, r2) = run(240);
+        if !matches!(&r2, Err(f) if f.signature.starts_with("observer.hang")) {
+            ctx.class("hang_not_reproduced", 1);
+            obs = obs2;
+            r = r2;
+        }
+    }
     ctx.record(part, vcore::rng::hash_str(&format!("{part}{c:?}")), &obs, || serde_json::to_value(c).unwrap());
     if let Err(f) = r {
         if f.signature.starts_with("harness.") {
